@@ -2,7 +2,7 @@
 import concurrent.futures as cf
 import hashlib
 import json
-import os
+import os, glob
 import re
 import shutil
 import subprocess
@@ -168,10 +168,22 @@ def coq_make(targets, timeout=3000):
     return p.returncode == 0, p.stdout
 
 
+MAX_BATCH_CHARS = 1500000
+
+
+def _big_stack():
+    try:
+        import resource
+        soft, hard = resource.getrlimit(resource.RLIMIT_STACK)
+        resource.setrlimit(resource.RLIMIT_STACK, (hard, hard))
+    except Exception:
+        pass
+
+
 def coqc_file(path, timeout=900):
     """compile a generated file against the built library; returns (ok, stdout)"""
     try:
-        p = subprocess.run(["coqc", "-noglob", "-Q", COQ, "NS", path], stdout=subprocess.PIPE,
+        p = subprocess.run(["coqc", "-noglob", "-Q", COQ, "NS", path], stdout=subprocess.PIPE, preexec_fn=_big_stack,
                            stderr=subprocess.STDOUT, text=True, timeout=timeout, cwd=os.path.dirname(path))
     except subprocess.TimeoutExpired:
         return False, "coqc timed out on " + path
@@ -196,8 +208,17 @@ def run_coq_checks(prop_id, imports, terms, batch=400, per_file_timeout=900, pre
         if f.startswith("cases_"):
             os.remove(os.path.join(wd, f))
     files = []
-    for b, start in enumerate(range(0, len(terms), batch)):
-        chunk = terms[start:start + batch]
+    # batches of at most [batch] terms and about MAX_BATCH_CHARS characters (coqc's parser and
+    # vm_compute use the C stack in proportion to the size of one vernacular sentence)
+    starts, start, size = [], 0, 0
+    for i, t in enumerate(terms):
+        if i > start and (i - start >= batch or size + len(t) > MAX_BATCH_CHARS):
+            starts.append((start, i)); start, size = i, 0
+        size += len(t)
+    if terms:
+        starts.append((start, len(terms)))
+    for b, (start, end) in enumerate(starts):
+        chunk = terms[start:end]
         path = os.path.join(wd, "cases_%d.v" % b)
         with open(path, "w") as f:
             f.write("From Coq Require Import List ZArith.\nImport ListNotations.\n")
@@ -271,9 +292,18 @@ def check_proofs(prop_id, extra_files=()):
     if not os.path.exists(src):
         info.update(ok=False, detail="missing " + src)
         return info
-    text = open(src).read()
-    names = re.findall(r"^\s*(?:Theorem|Lemma|Corollary|Example|Fact|Proposition)\s+([A-Za-z0-9_']+)", text, re.M)
+    # the property's theorem files: Props/<id>.v and any Props/<id>_*.v (statements on the code model)
+    srcs = [src] + sorted(glob.glob(os.path.join(COQ, "Props", prop_id + "_*.v")))
+    names = []
+    per_file = {}
+    for f in srcs:
+        text = open(f).read()
+        text = re.sub(r"\(\*.*?\*\)", "", text, flags=re.S)
+        ns = re.findall(r"^\s*(?:Theorem|Lemma|Corollary|Example|Fact|Proposition)\s+([A-Za-z0-9_']+)", text, re.M)
+        per_file[f] = ns
+        names += ns
     info["names"] = names
+    info["files"] = [os.path.relpath(f, COQ) for f in srcs]
     info["obligations"] = len(names)
     # forbidden keywords anywhere in the development
     bad = []
@@ -286,30 +316,36 @@ def check_proofs(prop_id, extra_files=()):
                     bad.append("%s: %s" % (os.path.relpath(os.path.join(dp, fn), COQ), m.group(0)))
     if bad:
         info.update(ok=False, detail="forbidden keyword: " + "; ".join(bad[:5]))
-    ok, out = coq_make(["Props/%s.vo" % prop_id] + list(extra_files))
+    ok, out = coq_make([os.path.relpath(f, COQ)[:-2] + ".vo" for f in srcs] + list(extra_files))
     if not ok:
         info.update(ok=False, detail="make failed: " + out[-1500:])
         return info
-    # re-run the leaf file to capture Print Assumptions
+    # re-run the leaf files to capture Print Assumptions
     wd = os.path.join(WORK, prop_id)
     os.makedirs(wd, exist_ok=True)
-    try:
-        p = subprocess.run(["coqc", "-noglob", "-Q", COQ, "NS", src, "-o", os.path.join(wd, prop_id + ".vo")],
-                           stdout=subprocess.PIPE, stderr=subprocess.STDOUT, text=True, timeout=1200)
-    except subprocess.TimeoutExpired:
-        info.update(ok=False, detail="coqc timed out on the property file")
-        return info
-    if p.returncode != 0:
-        info.update(ok=False, detail="property file does not compile: " + p.stdout[-1500:])
-        return info
-    out = p.stdout
-    n_closed = len(re.findall(r"Closed under the global context", out))
-    blocks = re.split(r"^Axioms:\s*$", out, flags=re.M)
     axioms = set()
-    for blk in blocks[1:]:
-        for m in re.finditer(r"^([A-Za-z_][\w.']*)\s*$|^([A-Za-z_][\w.']*)\s+:", blk, re.M):
-            axioms.add(m.group(1) or m.group(2))
-    n_reports = n_closed + len(blocks) - 1
+    n_reports = 0
+    for f in srcs:
+        base = os.path.basename(f)[:-2]
+        try:
+            p = subprocess.run(["coqc", "-noglob", "-Q", COQ, "NS", f, "-o", os.path.join(wd, base + ".vo")],
+                               stdout=subprocess.PIPE, stderr=subprocess.STDOUT, text=True, timeout=1200)
+        except subprocess.TimeoutExpired:
+            info.update(ok=False, detail="coqc timed out on " + base + ".v")
+            return info
+        if p.returncode != 0:
+            info.update(ok=False, detail="property file %s.v does not compile: %s" % (base, p.stdout[-1500:]))
+            return info
+        out = p.stdout
+        n_closed = len(re.findall(r"Closed under the global context", out))
+        blocks = re.split(r"^Axioms:\s*$", out, flags=re.M)
+        for blk in blocks[1:]:
+            for m in re.finditer(r"^([A-Za-z_][\w.']*)\s*$|^([A-Za-z_][\w.']*)\s+:", blk, re.M):
+                axioms.add(m.group(1) or m.group(2))
+        nr = n_closed + len(blocks) - 1
+        if nr < len(per_file[f]):
+            info.update(ok=False, detail="only %d Print Assumptions reports for %d theorems in %s.v" % (nr, len(per_file[f]), base))
+        n_reports += nr
     info["axioms"] = sorted(axioms)
     unexpected = [a for a in axioms if a not in ALLOWED_AXIOMS]
     if unexpected:
